@@ -98,6 +98,13 @@ func (buf *BipBuffer) Commit(n int) []byte {
 	if toCommit > n {
 		toCommit = n
 	}
+	if toCommit <= 0 {
+		// Nothing to commit (e.g. a zero-sized claim). Do not move head/tail, otherwise an empty buffer ends up
+		// positioned at the claim's offset and can no longer hand out its full size.
+		buf.claimHead = 0
+		buf.claimTail = 0
+		return nil
+	}
 	var head, tail int
 	if buf.Committed() == 0 {
 		buf.head = buf.claimHead
